@@ -182,16 +182,17 @@ def queries(tier):
                             "compared": "<= 4 mantissa digits, |decimal exponent| <= 22, relative tolerance 1e-14"}, timeout=T))
     # long CONCRETE numerals (beyond 2^53 / 2^64, long fractions, leading zeros): constant-folded execution of the real code
     KL = 40     # line buffer for the getter variant: 'xx=' + 30-character numeral
-    KU = uw(KL, 50, 2, 50, {"harness.0": 100, "harness.1": 100, "harness.2": 100, "harness.3": 100, "harness.4": 100})
+    KU = uw(KL, 4, 2, 3, {"harness.0": 100, "harness.1": 100, "harness.2": 100, "harness.3": 100, "harness.4": 100})
     qs.append(Q("strtod_long_numerals", "harness/C16_strtod_kat.c", units=SU, models=SM + ["models/stdio_model.c"], defs=["__NO_CTYPE", "VM_STRBLK=41", "VM_NO_RECORDS", "VM_MEMSET_WORDS=0", "KAT_DIRECT"],
                 includes=["models/redir_ini.h"], unwind=BACKSTOP, unwindset=KU, object_bits=12, funcs=["p_strtod", "p_strchomp"],
                 bounds={"numerals": "77 concrete decimal numerals of 1..30 characters (table harness/C16_strtod_kat.h from glibc strtod)", "tolerance": "relative 1e-14"}, timeout=T))
     qs.append(Q("getter_double_long_numerals", "harness/C16_strtod_kat.c", units=UNITS, models=MODELS,
-                defs=["__NO_CTYPE", "PLIBSYS_VERIF", "PLIBSYS_VERIF_INI_MAX_LINE=%d" % KL, "VM_STRBLK=%d" % (KL + 1), "VM_FILE_MAX=2048", "VM_REC2_ALWAYS=1", "KAT_GETTER"],
+                defs=["__NO_CTYPE", "PLIBSYS_VERIF", "PLIBSYS_VERIF_INI_MAX_LINE=%d" % KL, "VM_STRBLK=%d" % (KL + 1), "VM_FILE_MAX=48", "VM_REC2_ALWAYS=1", "KAT_GETTER"],
                 includes=["models/redir_ini.h"], export_local=True, remove_bodies=["p_list_foreach"], unwind=BACKSTOP, unwindset=KU, object_bits=12,
                 funcs=["p_ini_file_parse", "p_ini_file_parameter_double", "p_strtod"],
-                bounds={"file": "'[s]' + 43 lines 'xx=<numeral>' with concrete numerals of up to 30 characters", "P_INI_FILE_MAX_LINE": KL, "tolerance": "relative 1e-14"}, timeout=T))
-    qs.append(Q("strtod_repdigit_len24", "harness/C16_strtod_kat.c", units=SU, models=SM + ["models/stdio_model.c"], defs=["__NO_CTYPE", "VM_STRBLK=41", "VM_NO_RECORDS", "VM_MEMSET_WORDS=0", "KAT_REPDIGIT"],
-                includes=["models/redir_ini.h"], unwind=BACKSTOP, unwindset=uw(24, 1, 1, 1), object_bits=12, funcs=["p_strtod", "p_strchomp"],
-                bounds={"string": "n in 1..24 symbolic, n copies of one symbolic digit 1..9", "tolerance": "relative 1e-14 against d*(10^n-1)/9"}, timeout=T))
+                bounds={"file": "36 files '[s]' + 'key=<numeral>' with concrete numerals of up to 30 characters", "P_INI_FILE_MAX_LINE": KL, "tolerance": "relative 1e-14"}, timeout=T))
+    if not quick:   # semi-symbolic: decided, but measured at 663 s under load - too slow for the quick tier
+      qs.append(Q("strtod_repdigit_len24", "harness/C16_strtod_kat.c", units=SU, models=SM + ["models/stdio_model.c"], defs=["__NO_CTYPE", "VM_STRBLK=41", "VM_NO_RECORDS", "VM_MEMSET_WORDS=0", "KAT_REPDIGIT"],
+                  includes=["models/redir_ini.h"], unwind=BACKSTOP, unwindset=uw(24, 1, 1, 1), object_bits=12, funcs=["p_strtod", "p_strchomp"],
+                  bounds={"string": "n in 1..24 symbolic, n copies of one symbolic digit 1..9", "tolerance": "relative 1e-14 against d*(10^n-1)/9"}, timeout=T))
     return qs
